@@ -1,9 +1,15 @@
 import Banyan.Model.C03
 import Banyan.Generated.C02
+import Banyan.Generated.C03
 open Banyan
 
-/-- model driver for C03: same protocol and model as C02 (hooks/banyand/internal/verifdrv/mrw/main.go) -/
+/-- model driver for C03: measure histories (same protocol and model as C02) and `sidx …` lines
+    (thin multiset model of the ordered secondary index); see hooks/banyand/internal/verifdrv/mrw -/
 def main (args : List String) : IO Unit :=
   let legacy := if args.contains "legacy" then true else if args.contains "fixed" then false
                 else !Generated.C02.initGuarded
-  runDriver (Store.Proto.handleWith (if legacy then C03.cfgLegacy else C03.cfg))
+  let sxLegacy := if args.contains "sxlegacy" then true else if args.contains "sxfixed" then false
+                  else !Generated.C03.sidxHullAllOrNone
+  runDriver fun line =>
+    if line.startsWith "sidx" then C03.sidxHandle sxLegacy line
+    else Store.Proto.handleWith (if legacy then C03.cfgLegacy else C03.cfg) line
